@@ -186,6 +186,12 @@ def singleTree (d : Def) : Bool :=
   && d.levels.all (fun l => climbs d d.levels.length l.key)
   && keysDistinct (d.levels.map (·.name))
 
+/-- `buildPrivGraph` does not panic: every non-empty `previous-priv` is the *name* of some level.
+(The graph is keyed by name; the second loop writes the reverse edge into `privGraph[previous]`,
+an assignment to a nil map when no level has that name.) -/
+def graphBuildable (d : Def) : Bool :=
+  d.levels.all fun l => l.previous == "" || d.levels.any fun x => x.name == l.previous
+
 def patternsCompile (d : Def) : Bool :=
   d.levels.all fun l => l.patternOk && l.escalatePromptOk
 
